@@ -45,11 +45,18 @@ def every_marker_emitted(ctx, res, rule):
     if len(folds) == 1 and not fors:
         clo = T.peel(folds[0]["args"][1])
         body, accp, itemp = clo["body"], clo["params"][0]["pat"], clo["params"][1]["pat"]
+        over = T.render(folds[0]["recv"])
     elif len(fors) == 1 and not folds:
         body, accp, itemp = fors[0]["body"], None, fors[0]["pat"]
+        over = T.render(fors[0]["iter"])
     else:
         res.cannot(rule, fn, "traversal", "the traversal of the range trees (fold or for) was not found", loc)
         return
+    pname = b["params"][0]["pat"].get("name") if b["params"] else None
+    if over in ("%s.into_iter()" % pname, "%s.iter()" % pname, pname, "&%s" % pname) :
+        res.holds(rule, fn, "all-trees-traversed", over)
+    else:
+        res.add(Finding(rule, fn, "all-trees-traversed", "the range trees are traversed through `%s`, not all of `%s` in order: an element's marker is never built" % (over[:80], pname), loc=loc))
     I = A.Interp(P)
     I.lazy_locals = True
 
